@@ -73,6 +73,8 @@ def blocks(tier, seed):
         core = [i for i, (n, _) in enumerate(A) if n.startswith(("B-", "iface", "top", "two", "catchall-global"))]
         for i in core[::2] if tier == "quick" else core:
             out.append({"kind": "pair", "i": i, "j": core[(core.index(i) + 3) % len(core)], "vendor": v})
+        for i in range(len(aclgen.merge_pairs())):
+            out.append({"kind": "mpair", "i": i, "vendor": v})
     return out
 
 
@@ -180,7 +182,11 @@ def run_block(block, ctx):
         level = refacl.top(refacl.merge([("g", rules)]))
         rows = aclgen.row_alphabet(rules)[:4]
     else:
-        ra, rb_ = A[block["i"]][1](), A[block["j"]][1]()
+        if block["kind"] == "mpair":
+            _, fa, fb = aclgen.merge_pairs()[block["i"]]
+            ra, rb_ = fa(), fb()
+        else:
+            ra, rb_ = A[block["i"]][1](), A[block["j"]][1]()
         text = "".join("%s  %%generator_names=%s\n" % (ln.rstrip(), g) for g, t in (("ga", refacl.text(ra)), ("gb", refacl.text(rb_)))
                        for ln in t.split("\n") if ln.strip())
         level = refacl.top(refacl.merge([("ga", ra), ("gb", rb_)]))
